@@ -21,7 +21,7 @@ RULE = c01.RULE + (
 	' Additionally every struct of both schema sets is compared member by member between translate/cats.py and catparser '
 	'(kind, width, signedness, reserved value, array element/size/kind/sort key/alignment/padding, condition, sizeof/sizeref target).')
 TRUSTED_BASE = c01.TRUSTED_BASE
-ASSUMPTIONS = c01.ASSUMPTIONS + ['str() renderings are not modelled (to_json is)']
+ASSUMPTIONS = c01.ASSUMPTIONS + ['to_json() and str() renderings are modelled (Codec/Render.lean) and compared on every generated value; there is no theorem about the renderings']
 
 
 def catparser_models(network):
@@ -158,11 +158,11 @@ MANIFEST = {
 		'aligned elements start at multiples of the alignment with minimal zero padding (last element per pad_last); conditional members contribute bytes '
 		'exactly when their condition holds. The IR the theorems speak about is re-read from the schema TEXT on every run by an independent reader that is '
 		'cross-checked member by member against catparser; the interpreter and the codecs are compared byte for byte (first differing offset reported) and '
-		"to_json() renderings are compared with the model's."
+		"to_json() and str() renderings are compared with the model's on every value."
 	),
 	'level_note': (
-		'Trusted: Lean kernel + standard axioms; hand-written interpreter tied by differential execution; translate/cats.py; str() renderings are not modelled '
-		'(to_json is, by execution only - no theorem about the rendering).'
+		'Trusted: Lean kernel + standard axioms; hand-written interpreter tied by differential execution; translate/cats.py; the JSON and text renderings are tied '
+		'by execution only (no theorem about the renderings).'
 	),
 	'technique': 'Lean 4 layout theorems over a schema-indexed codec interpreter + byte-for-byte differential with the generated Python codecs',
 }
